@@ -402,7 +402,16 @@ def special_inputs(slow=False):
             out.append(("eml", f"special:eml-text-attachments{'-bom' if bom else ''}", m.as_bytes()))
     except Exception:  # noqa
         pass
+    out.append(("mbox", "special:mbox-second-message-nul-in-charset", good + b"From c@x.org Tue Jan  2 00:00:00 2024\nFrom: C <c@x.org>\n"
+                b"Content-Type: text/plain; charset=\"utf\x00-8\"\n\nbody\n"))
+    out.append(("mbox", "special:mbox-second-message-nul-in-encoded-word", good + b"From c@x.org Tue Jan  2 00:00:00 2024\nFrom: C <c@x.org>\n"
+                b"Subject: =?utf\x00-8?b?YWJj?=\n\nbody\n"))
     out += hostile_name_inputs()
+    # multi-result inputs whose LATER result is one of the hostile single messages (a failure after the first result
+    # is what distinguishes a CLI that streams from one that prints all or nothing)
+    for k_, lab_, b_ in list(out):
+        if k_ == "eml" and len(b_) < 4000:
+            out.append(("mbox", lab_.replace("special:eml-", "special:mbox-second-message-"), good + b"From z@x.org Wed Jan  3 00:00:00 2024\n" + b_ + b"\n"))
     out += regex_hostile_markup()
     out += damaged_attachment_encodings()
     out += nested_formula_documents(slow)
